@@ -136,6 +136,15 @@ def check_remove(res, U, p, P, W, rep, nodes, tolname, how, removable_hint=None)
                 if ov[0] != "ok" or not lib.close_point(lib.to_point(ov[1]), D0.value(u)):
                     res.violation("lossy", f"{where}: value at {u}: {ov[1:]} vs {D0.value(u)}", **tags)
                     return None
+        elif tol is not None and W is None and c.weights is None:
+            # an inexact removal accepted on float data: the exact integral of the squared deviation of the numbers returned
+            # may exceed the (absolute) tolerance by round-off only - two orders of magnitude are allowed
+            Dn = rb.denote(V, [lib.to_point(x) for x in c.ctrlpoints], None, p)
+            dev = max(D0.sq_dev(Dn))
+            bound = 200 * F(tol) * L
+            if dev > bound:
+                res.violation("lossy", f"{where}: accepted with integral of squared deviation {float(dev):.3e} > {float(bound):.3e}", **tags)
+                return None
         return c
     D1 = lib.curve_pw(c)
     if removable:
@@ -269,6 +278,14 @@ def run_case(case, res):
             check_remove(res, U, p, [1 / w for w in gw], gw, "frac", nodes, "default", "direct")
             check_remove(res, U, p, gen, None, "float", nodes, "default", "direct")
             check_remove(res, U, p, gen, None, "float", nodes, "none", "direct")
+            # float data far from the origin and almost removable: a refined curve moved by 1000, one control point off by 1/32
+            Vr = list(U)
+            Vr.remove(nodes[0])
+            T = sp.basis_change(Vr, U, p, p)
+            base = [x[0] for x in sp.apply_matrix(T, [(x,) for x in al.generic_points(n - 1)])]
+            for j in sorted({0, n // 2, n - 1}):
+                near = [1000 + x + (F(1, 32) if i == j else 0) for i, x in enumerate(base)]
+                check_remove(res, U, p, near, None, "float", nodes, "default", "near-removable")
     # invalid requests: absent knot, end knot, outside
     ks = rb.knots_of(U)
     for lab, nodes in (("absent", [al.midspans(U)[0]]), ("end", [ks[0]]), ("outside", [ks[-1] + 1]),
